@@ -13,8 +13,9 @@ for d in glob.glob(os.path.join(VERIF, "seeded", "*")):
         e = json.load(open(os.path.join(d, "evaluation.json")))
     except OSError:
         continue
-    s = seed.setdefault(e["property"], [0, 0]); s[1] += 1; s[0] += 1 if e.get("caught") else 0
-print("| id | claimed | tie | theorems (audited) | correspondence-only / observed-only entries | findings fixed / known | seeded caught / total (first evaluation) | quick wall s |")
+    s = seed.setdefault(e["property"], [0, 0, 0]); s[1] += 1; s[0] += 1 if e.get("caught") else 0
+    s[2] += 1 if (e.get("first_evaluation") or e).get("caught") else 0
+print("| id | claimed | tie | theorems (audited) | correspondence-only / observed-only entries | findings fixed / known | seeded changes: caught at first evaluation / caught now / total | quick wall s |")
 print("|---|---|---|---|---|---|---|---|")
 for l in open(os.path.join(VERIF, "properties.jsonl")):
     pid = json.loads(l)["id"]
@@ -30,6 +31,6 @@ for l in open(os.path.join(VERIF, "properties.jsonl")):
     cov = ev.get("coverage", {})
     tie = "T+H" if hasattr(m, "regenerate") or pid in ("C05", "C13", "C15") else "H"
     co = len(getattr(m, "CORRESPONDENCE_ONLY", [])); uo = len(getattr(m, "UNPROVED_OBSERVED", []))
-    f = find.get(pid, {"fixed": 0, "known": 0}); s = seed.get(pid, [0, 0])
-    print("| %s | %s | %s | %s | %d / %d | %d / %d | %d / %d | %s |" % (pid, "yes" if getattr(m, "CLAIMED", False) else "parked", tie,
-          cov.get("discharged", "?"), co, uo, f.get("fixed", 0), f.get("known", 0), s[0], s[1], ev.get("wall_s", "?")))
+    f = find.get(pid, {"fixed": 0, "known": 0}); s = seed.get(pid, [0, 0, 0])
+    print("| %s | %s | %s | %s | %d / %d | %d / %d | %d / %d / %d | %s |" % (pid, "yes" if getattr(m, "CLAIMED", False) else "parked", tie,
+          cov.get("discharged", "?"), co, uo, f.get("fixed", 0), f.get("known", 0), s[2], s[0], s[1], ev.get("wall_s", "?")))
